@@ -75,7 +75,7 @@ def cq_search(repo, prop, tier, seed=1):
             res.update({"status": "not_run", "reason": "driver crashed: " + p.stderr.decode("utf8", "replace")[-300:]})
         return res
     finally:
-        if repo != "/repo":
+        if repo != "/repo" and not os.environ.get("VERIF_KEEP_CACHE"):
             tag = hashlib.sha1(repo.encode()).hexdigest()[:8]
             shutil.rmtree(os.path.join(WORK_BASE, "cq_driver-" + tag), ignore_errors=True)
         fcntl.flock(lockf, fcntl.LOCK_UN)
@@ -150,7 +150,7 @@ def rt_search(repo, prop, tier, seed=1):
             res.update({"status": "not_run", "reason": "driver crashed: " + p.stderr.decode("utf8", "replace")[-300:]})
         return res
     finally:
-        if repo != "/repo":
+        if repo != "/repo" and not os.environ.get("VERIF_KEEP_CACHE"):
             tag = hashlib.sha1(repo.encode()).hexdigest()[:8]
             shutil.rmtree(os.path.join(WORK_BASE, "rt_driver-" + tag), ignore_errors=True)
             shutil.rmtree(os.path.join(WORK_BASE, "des-drivers-target-" + tag), ignore_errors=True)
@@ -192,7 +192,7 @@ def tree_search(repo, prop, tier, seed=1):
             res.update({"status": "not_run", "reason": "driver crashed: " + p.stderr.decode("utf8", "replace")[-300:]})
         return res
     finally:
-        if repo != "/repo":
+        if repo != "/repo" and not os.environ.get("VERIF_KEEP_CACHE"):
             tag = hashlib.sha1(repo.encode()).hexdigest()[:8]
             shutil.rmtree(os.path.join(WORK_BASE, "tree_driver-" + tag), ignore_errors=True)
             shutil.rmtree(os.path.join(WORK_BASE, "des-drivers-target-" + tag), ignore_errors=True)
@@ -234,7 +234,7 @@ def net_search(repo, prop, tier, seed=1):
             res.update({"status": "not_run", "reason": "driver crashed: " + p.stderr.decode("utf8", "replace")[-300:]})
         return res
     finally:
-        if repo != "/repo":
+        if repo != "/repo" and not os.environ.get("VERIF_KEEP_CACHE"):
             tag = hashlib.sha1(repo.encode()).hexdigest()[:8]
             shutil.rmtree(os.path.join(WORK_BASE, "net_driver-" + tag), ignore_errors=True)
             shutil.rmtree(os.path.join(WORK_BASE, "des-drivers-target-" + tag), ignore_errors=True)
@@ -290,7 +290,7 @@ def alloc_search(repo, prop, tier, seed=1):
             res.update({"status": "not_run", "reason": "driver crashed: " + p.stderr.decode("utf8", "replace")[-300:]})
         return res
     finally:
-        if repo != "/repo":
+        if repo != "/repo" and not os.environ.get("VERIF_KEEP_CACHE"):
             shutil.rmtree(d, ignore_errors=True)
         fcntl.flock(lockf, fcntl.LOCK_UN)
         lockf.close()
@@ -335,7 +335,7 @@ def topo_search(repo, prop, tier, seed=1):
                 res.update({"status": "not_run", "reason": "driver crashed: " + err[-300:]})
         return res
     finally:
-        if repo != "/repo":
+        if repo != "/repo" and not os.environ.get("VERIF_KEEP_CACHE"):
             tag = hashlib.sha1(repo.encode()).hexdigest()[:8]
             shutil.rmtree(os.path.join(WORK_BASE, "topo_driver-" + tag), ignore_errors=True)
             shutil.rmtree(os.path.join(WORK_BASE, "des-drivers-target-" + tag), ignore_errors=True)
@@ -377,7 +377,7 @@ def timer_search(repo, prop, tier, seed=1):
             res.update({"status": "not_run", "reason": "driver crashed: " + p.stderr.decode("utf8", "replace")[-300:]})
         return res
     finally:
-        if repo != "/repo":
+        if repo != "/repo" and not os.environ.get("VERIF_KEEP_CACHE"):
             tag = hashlib.sha1(repo.encode()).hexdigest()[:8]
             shutil.rmtree(os.path.join(WORK_BASE, "timer_driver-" + tag), ignore_errors=True)
             shutil.rmtree(os.path.join(WORK_BASE, "des-drivers-target-" + tag), ignore_errors=True)
